@@ -1,5 +1,6 @@
 import TIV.Common.Wire
 import TIV.C03.Model
+import TIV.C01.Drive
 /-! driver ops of C03 -/
 namespace TIV.C03
 open TIV.Wire
@@ -29,6 +30,20 @@ def handler : Handler := fun op args =>
   | "trans" => run (do
       let ctrl ← pControl; let level ← nat; let size ← nat; let p ← hex
       pure ("ok " ++ hexEncode (ofNats (transmission ctrl level size (toNats p))))) args
-  | _ => none
+  | "strips" => run (do
+      let width ← nat; let height ← nat; let rh ← nat; let fmt ← nat; let raw ← hex
+      let k := bytesPerLine width height rh fmt
+      pure ("ok " ++ fmtList (fun s => hexEncode (ofNats s)) (strips k rh (toNats raw)))) args
+  | "minsize" => run (do
+      let a ← nat; let b ← nat; let c ← nat; let d ← nat
+      let r := minimalRenderSize (a, b) (c, d)
+      pure s!"ok {r.1} {r.2}") args
+  | "gate" => run (do
+      let readFromFile ← bool; let animated ← bool; let readable ← bool; let whole ← bool
+      let origPixels ← nat; let renderPixels ← nat; let modeNoAlpha ← bool; let alphaIsFloat ← bool
+      let modePalette ← bool
+      let g : FileGate := ⟨readFromFile, animated, readable, whole, origPixels, renderPixels, modeNoAlpha, alphaIsFloat, modePalette⟩
+      pure ("ok " ++ fmtBool (usesFile g))) args
+  | _ => C01.handler op args
 
 end TIV.C03
